@@ -334,6 +334,8 @@ func Harness_parse_line_step() {
 			if ok {
 				verifAssert("malformed-line-number", e.LineNumber == p)
 				verifAssert("malformed-raw-line", e.Line == line)
+				verifAssert("malformed-message-quotes-line", verifContains(e.Error(), line))
+				verifAssert("malformed-message-has-line-number", verifContains(e.Error(), "line "+strconv.Itoa(p)))
 			}
 		case 2:
 			e, ok := r.errs[0].(*ErrorConversion)
@@ -342,6 +344,8 @@ func Harness_parse_line_step() {
 				verifAssert("malformed-line-number", e.LineNumber == p)
 				verifAssert("malformed-raw-line", e.Line == line)
 				verifAssert("malformed-token", e.Text == errToken)
+				verifAssert("malformed-message-quotes-line", verifContains(e.Error(), line))
+				verifAssert("malformed-message-has-line-number", verifContains(e.Error(), "line "+strconv.Itoa(p)))
 			}
 		}
 	}
